@@ -59,6 +59,9 @@ pub fn real_walk(g: &GraphDesc, init: u8, walk: &[u16]) -> (Vec<u32>, Vec<u16>) 
 
 pub struct PathApi;
 impl SubCheck for PathApi {
+    fn fuzzable(&self) -> bool {
+        true
+    }
     type Case = PathCase;
     fn name(&self) -> &'static str {
         "path_api"
